@@ -558,3 +558,437 @@ theorem ideal_fixed_value (v : ℚ) (hv : v ≠ 0) (s : ℤ) (hs : 1 ≤ s)
     rw [← zpow_natCast, Int.toNat_of_nonneg hnn]
 
 end C16
+
+/-! ## no double rounding, with floats -/
+
+namespace C16
+open Format
+
+/-- what is assumed of binary64 round-to-nearest for the fixed-point branch: relative error at most 2⁻⁵³, and
+integers below 2⁵³ in magnitude are exact (normal range: |q| ≥ 2⁻¹⁰²²) -/
+structure FlLaw (fl : ℚ → Option ℚ) : Prop where
+  rel : ∀ q x, (2 : ℚ) ^ (-1022 : ℤ) ≤ |q| → fl q = some x → |x - q| ≤ (2 : ℚ) ^ (-53 : ℤ) * |q|
+  int_exact : ∀ (n : ℤ) x, |(n : ℚ)| < (2 : ℚ) ^ (53 : ℕ) → fl (n : ℚ) = some x → x = (n : ℚ)
+
+theorem two_pow_neg53_lt : (2 : ℚ) ^ (-53 : ℤ) * (10 : ℚ) ^ (15 : ℤ) < 1 / 4 := by
+  norm_num
+
+/-- closeness of the float to the decimal it should carry, from the relative-error law, for at most 15
+significant digits: if `|d| ≤ 10^(s+q)` then the float is within a quarter of `10^q` of `d` -/
+theorem close_of_rel (d x2 : ℚ) (s q : ℤ) (hs : s ≤ 15) (hd : |d| ≤ (10 : ℚ) ^ (s + q))
+    (hfl : |x2 - d| ≤ (2 : ℚ) ^ (-53 : ℤ) * |d|) : |x2 - d| < 1 / 4 * (10 : ℚ) ^ q := by
+  have h10 : (10 : ℚ) ^ (s + q) ≤ (10 : ℚ) ^ (15 : ℤ) * (10 : ℚ) ^ q := by
+    rw [← zpow_add₀ (by norm_num : (10 : ℚ) ≠ 0)]
+    apply zpow_le_zpow_right₀ (by norm_num : (1 : ℚ) ≤ 10)
+    omega
+  have hq := pow10_pos q
+  calc |x2 - d| ≤ (2 : ℚ) ^ (-53 : ℤ) * |d| := hfl
+    _ ≤ (2 : ℚ) ^ (-53 : ℤ) * ((10 : ℚ) ^ (15 : ℤ) * (10 : ℚ) ^ q) := by
+        apply mul_le_mul_of_nonneg_left (hd.trans h10) (by positivity)
+    _ = ((2 : ℚ) ^ (-53 : ℤ) * (10 : ℚ) ^ (15 : ℤ)) * (10 : ℚ) ^ q := by ring
+    _ < 1 / 4 * (10 : ℚ) ^ q := by
+        apply mul_lt_mul_of_pos_right two_pow_neg53_lt hq
+
+end C16
+
+namespace C16
+open Format
+
+theorem log_eq_of_bounds (x : ℚ) (hx : 0 < x) (k : ℤ) (h1 : (10 : ℚ) ^ k ≤ x) (h2 : x < (10 : ℚ) ^ (k + 1)) :
+    Int.log 10 x = k := by
+  have a : k ≤ Int.log 10 x := (Int.zpow_le_iff_le_log (by norm_num) hx).mp (by exact_mod_cast h1)
+  have b : Int.log 10 x < k + 1 := (Int.lt_zpow_iff_log_lt (by norm_num) hx).mp (by exact_mod_cast h2)
+  omega
+
+/-- the once-rounded value stays between the powers of ten that bracket `v` -/
+theorem rhe_bracket (v : ℚ) (hv : v ≠ 0) (p : ℤ) (hp : 0 ≤ Int.log 10 |v| + p) :
+    (10 : ℚ) ^ (Int.log 10 |v|) ≤ |rhe v p| ∧ |rhe v p| ≤ (10 : ℚ) ^ (Int.log 10 |v| + 1) := by
+  have hvpos : 0 < |v| := abs_pos.mpr hv
+  rw [rhe_abs]
+  constructor
+  · rw [← rhe_pow10 (Int.log 10 |v|) p hp]
+    exact rhe_mono p (Int.zpow_log_le_self (by norm_num) hvpos)
+  · rw [← rhe_pow10 (Int.log 10 |v| + 1) p (by omega)]
+    exact rhe_mono p (Int.lt_zpow_succ_log_self (by norm_num) |v|).le
+
+end C16
+
+namespace C16
+open Format
+
+theorem pow10_add (a b : ℤ) : (10 : ℚ) ^ (a + b) = (10 : ℚ) ^ a * (10 : ℚ) ^ b :=
+  zpow_add₀ (by norm_num) a b
+
+theorem pow10_mono {a b : ℤ} (h : a ≤ b) : (10 : ℚ) ^ a ≤ (10 : ℚ) ^ b :=
+  zpow_le_zpow_right₀ (by norm_num) h
+
+theorem pow10_neg_le_of_s (s : ℤ) (hs : s ≤ 15) : (10 : ℚ) ^ (-15 : ℤ) ≤ (10 : ℚ) ^ (-s) :=
+  pow10_mono (by omega)
+
+/-- a grid point strictly below (above) a power of ten that lies on the grid is at least one grid step away -/
+theorem grid_gap_below (m : ℤ) (p a : ℤ) (hap : 0 ≤ a + p) (h : (m : ℚ) / (10 : ℚ) ^ p < (10 : ℚ) ^ a) :
+    (m : ℚ) / (10 : ℚ) ^ p ≤ (10 : ℚ) ^ a - 1 / (10 : ℚ) ^ p := by
+  have hp := pow10_pos p
+  have e : (10 : ℚ) ^ a = (((10 : ℤ) ^ (a + p).toNat : ℤ) : ℚ) / (10 : ℚ) ^ p := by
+    rw [eq_div_iff hp.ne', ← pow10_add]
+    push_cast
+    rw [← zpow_natCast, Int.toNat_of_nonneg hap]
+  rw [e] at h ⊢
+  rw [div_lt_div_iff_of_pos_right hp] at h
+  have hm : m < (10 : ℤ) ^ (a + p).toNat := by exact_mod_cast h
+  have hm' : m ≤ (10 : ℤ) ^ (a + p).toNat - 1 := by omega
+  rw [← sub_div, div_le_div_iff_of_pos_right hp]
+  exact_mod_cast hm'
+
+theorem grid_gap_above (m : ℤ) (p a : ℤ) (hap : 0 ≤ a + p) (h : (10 : ℚ) ^ a < (m : ℚ) / (10 : ℚ) ^ p) :
+    (10 : ℚ) ^ a + 1 / (10 : ℚ) ^ p ≤ (m : ℚ) / (10 : ℚ) ^ p := by
+  have hp := pow10_pos p
+  have e : (10 : ℚ) ^ a = (((10 : ℤ) ^ (a + p).toNat : ℤ) : ℚ) / (10 : ℚ) ^ p := by
+    rw [eq_div_iff hp.ne', ← pow10_add]
+    push_cast
+    rw [← zpow_natCast, Int.toNat_of_nonneg hap]
+  rw [e] at h ⊢
+  rw [div_lt_div_iff_of_pos_right hp] at h
+  have hm : (10 : ℤ) ^ (a + p).toNat < m := by exact_mod_cast h
+  have hm' : (10 : ℤ) ^ (a + p).toNat + 1 ≤ m := by omega
+  rw [← add_div, div_le_div_iff_of_pos_right hp]
+  exact_mod_cast hm'
+
+end C16
+
+namespace C16
+open Format
+
+theorem rel_small : (2 : ℚ) ^ (-53 : ℤ) < (10 : ℚ) ^ (-15 : ℤ) / 2 := by norm_num
+
+
+theorem stays_above (E dabs x : ℚ) (hE : 0 < E) (hd : E * (1 + (10 : ℚ) ^ (-15 : ℤ)) ≤ dabs)
+    (hx : dabs - (2 : ℚ) ^ (-53 : ℤ) * dabs ≤ x) : E ≤ x := by
+  have hc : (1 : ℚ) ≤ (1 + (10 : ℚ) ^ (-15 : ℤ)) * (1 - (2 : ℚ) ^ (-53 : ℤ)) := by norm_num
+  have h1 : (0 : ℚ) ≤ 1 - (2 : ℚ) ^ (-53 : ℤ) := by norm_num
+  calc E = E * 1 := by ring
+    _ ≤ E * ((1 + (10 : ℚ) ^ (-15 : ℤ)) * (1 - (2 : ℚ) ^ (-53 : ℤ))) := mul_le_mul_of_nonneg_left hc hE.le
+    _ = (E * (1 + (10 : ℚ) ^ (-15 : ℤ))) * (1 - (2 : ℚ) ^ (-53 : ℤ)) := by ring
+    _ ≤ dabs * (1 - (2 : ℚ) ^ (-53 : ℤ)) := mul_le_mul_of_nonneg_right hd h1
+    _ = dabs - (2 : ℚ) ^ (-53 : ℤ) * dabs := by ring
+    _ ≤ x := hx
+
+theorem stays_below (E dabs x : ℚ) (hE : 0 < E) (hd : dabs ≤ E * (1 - (10 : ℚ) ^ (-15 : ℤ)))
+    (hx : x ≤ dabs + (2 : ℚ) ^ (-53 : ℤ) * dabs) : x < E := by
+  have hc : (1 - (10 : ℚ) ^ (-15 : ℤ)) * (1 + (2 : ℚ) ^ (-53 : ℤ)) < 1 := by norm_num
+  have h1 : (0 : ℚ) ≤ 1 + (2 : ℚ) ^ (-53 : ℤ) := by norm_num
+  calc x ≤ dabs + (2 : ℚ) ^ (-53 : ℤ) * dabs := hx
+    _ = dabs * (1 + (2 : ℚ) ^ (-53 : ℤ)) := by ring
+    _ ≤ (E * (1 - (10 : ℚ) ^ (-15 : ℤ))) * (1 + (2 : ℚ) ^ (-53 : ℤ)) := mul_le_mul_of_nonneg_right hd h1
+    _ = E * ((1 - (10 : ℚ) ^ (-15 : ℤ)) * (1 + (2 : ℚ) ^ (-53 : ℤ))) := by ring
+    _ < E * 1 := mul_lt_mul_of_pos_left hc hE
+    _ = E := by ring
+
+theorem near_ge_tenth (E x : ℚ) (hE : 0 < E) (hx : E - (2 : ℚ) ^ (-53 : ℤ) * E ≤ x) : E / 10 ≤ x := by
+  have : E / 10 ≤ E - (2 : ℚ) ^ (-53 : ℤ) * E := by
+    have hc : (1 : ℚ) / 10 ≤ 1 - (2 : ℚ) ^ (-53 : ℤ) := by norm_num
+    calc E / 10 = E * (1 / 10) := by ring
+      _ ≤ E * (1 - (2 : ℚ) ^ (-53 : ℤ)) := mul_le_mul_of_nonneg_left hc hE.le
+      _ = E - (2 : ℚ) ^ (-53 : ℤ) * E := by ring
+  exact this.trans hx
+
+theorem near_lt_ten (E x : ℚ) (hE : 0 < E) (hx : x ≤ E + (2 : ℚ) ^ (-53 : ℤ) * E) : x < E * 10 := by
+  have hc : 1 + (2 : ℚ) ^ (-53 : ℤ) < 10 := by norm_num
+  calc x ≤ E + (2 : ℚ) ^ (-53 : ℤ) * E := hx
+    _ = E * (1 + (2 : ℚ) ^ (-53 : ℤ)) := by ring
+    _ < E * 10 := mul_lt_mul_of_pos_left hc hE
+
+/-- **No double rounding, with floats.**  For 1 ≤ s ≤ 15 significant digits and |v| < 10¹⁵, if `floor(log10 ·)` is
+exact and the float rounding obeys `FlLaw` (relative error ≤ 2⁻⁵³, integers up to 2⁵³ exact), the digits the fixed
+branch of `format_num` prints denote exactly `round_half_even(v, p)` — the re-derived precision `p2` may be `p − 1`
+(carry to the next power of ten), `p`, or `p + 1` (the float of a power of ten falling just below it), and in each
+case the printed decimal is the once-rounded value. -/
+theorem fixed_value_float (L : FloatLib) (hlog : ∀ x, L.ilog10 x = Int.log 10 x) (hfl : FlLaw L.fl)
+    (v : ℚ) (hv : v ≠ 0) (hvlo : (10 : ℚ) ^ (-300 : ℤ) ≤ |v|) (hv15 : |v| < (10 : ℚ) ^ (15 : ℤ))
+    (s : ℤ) (hs1 : 1 ≤ s) (hs15 : s ≤ 15)
+    (n p2 : ℕ) (h : fixedDigits L v s = .ok (n, p2)) :
+    (n : ℚ) / (10 : ℚ) ^ (p2 : ℤ) = |rhe v ((s - 1 - Int.log 10 |v|).toNat : ℤ)| := by
+  unfold fixedDigits at h
+  simp only [hlog] at h
+  set e := Int.log 10 |v| with he
+  set p := (s - 1 - e).toNat with hp
+  set d := rhe v (p : ℤ) with hd
+  have hvpos : 0 < |v| := abs_pos.mpr hv
+  split at h
+  · cases h
+  · rename_i x2 hx2
+    split_ifs at h with hx0
+    injection h with h
+    injection h with hn hp2
+    have hx2pos : 0 < |x2| := abs_pos.mpr hx0
+    have he15 : e < 15 := (Int.lt_zpow_iff_log_lt (by norm_num) hvpos).mp (by exact_mod_cast hv15)
+    have helo : (-300 : ℤ) ≤ e := (Int.zpow_le_iff_le_log (by norm_num) hvpos).mp (by exact_mod_cast hvlo)
+    have hnormal : ∀ y : ℚ, (10 : ℚ) ^ e ≤ y → (2 : ℚ) ^ (-1022 : ℤ) ≤ y := fun y hy =>
+      calc (2 : ℚ) ^ (-1022 : ℤ) ≤ (10 : ℚ) ^ (-300 : ℤ) := by
+            have h10 : (10 : ℚ) ^ (300 : ℕ) ≤ (2 : ℚ) ^ (1022 : ℕ) := by
+              calc (10 : ℚ) ^ (300 : ℕ) = ((10 : ℚ) ^ 3) ^ 100 := by rw [← pow_mul]
+                _ ≤ ((2 : ℚ) ^ 10) ^ 100 := pow_le_pow_left₀ (by norm_num) (by norm_num) 100
+                _ = (2 : ℚ) ^ 1000 := by rw [← pow_mul]
+                _ ≤ (2 : ℚ) ^ 1022 := pow_le_pow_right₀ (by norm_num) (by norm_num)
+            have e1 : (2 : ℚ) ^ (-1022 : ℤ) = ((2 : ℚ) ^ (1022 : ℕ))⁻¹ := by
+              rw [show (-1022 : ℤ) = -((1022 : ℕ) : ℤ) by norm_num, zpow_neg, zpow_natCast]
+            have e2 : (10 : ℚ) ^ (-300 : ℤ) = ((10 : ℚ) ^ (300 : ℕ))⁻¹ := by
+              rw [show (-300 : ℤ) = -((300 : ℕ) : ℤ) by norm_num, zpow_neg, zpow_natCast]
+            rw [e1, e2]
+            exact inv_anti₀ (by positivity) h10
+        _ ≤ (10 : ℚ) ^ e := pow10_mono helo
+        _ ≤ y := hy
+    by_cases hcase : s - 1 - e < 0
+    · -- integers: the float is exact
+      have hp0 : p = 0 := by rw [hp]; exact Int.toNat_eq_zero.mpr hcase.le
+      have hbr := rhe_bracket v hv (p : ℤ) (by rw [hp0]; simp; omega)
+      have hdint : d = ((rheInt (v * (10 : ℚ) ^ ((p : ℕ) : ℤ)) : ℤ) : ℚ) := by
+        rw [hd]; unfold rhe; rw [hp0]; simp
+      have hle : |d| < (2 : ℚ) ^ (53 : ℕ) := by
+        calc |d| ≤ (10 : ℚ) ^ (e + 1) := hbr.2
+          _ ≤ (10 : ℚ) ^ (15 : ℤ) := pow10_mono (by omega)
+          _ < (2 : ℚ) ^ (53 : ℕ) := by norm_num
+      have hxd : x2 = d := by
+        have := hfl.int_exact (rheInt (v * (10 : ℚ) ^ ((p : ℕ) : ℤ))) x2 (by rw [← hdint]; exact hle)
+          (by rw [← hdint]; exact hx2)
+        rw [this, ← hdint]
+      have hd0 : d ≠ 0 := hxd ▸ hx0
+      have := ideal_fixed_value v hv s hs1 hd0
+      simp only at this
+      rw [← hn, ← hp2, hxd]
+      exact this
+    · rw [not_lt] at hcase
+      have hpe : (p : ℤ) = s - 1 - e := by rw [hp]; exact Int.toNat_of_nonneg hcase
+      have hbr := rhe_bracket v hv (p : ℤ) (by omega)
+      have hrel := hfl.rel d x2 (hnormal _ hbr.1) hx2
+      have habs : |(|x2| - |d|)| ≤ |x2 - d| := abs_abs_sub_abs_le_abs_sub x2 d
+      have habsd : |d| = rhe |v| (p : ℤ) := rhe_abs v p
+      set m := rheInt (|v| * (10 : ℚ) ^ (p : ℤ)) with hm
+      have hm0 : 0 ≤ m := rheInt_nonneg (mul_nonneg hvpos.le (pow10_pos _).le)
+      have hdm : |d| = (m : ℚ) / (10 : ℚ) ^ (p : ℤ) := by rw [habsd]; rfl
+      have hdpos : 0 < |d| := lt_of_lt_of_le (pow10_pos e) hbr.1
+      have h53 : (0 : ℚ) < (2 : ℚ) ^ (-53 : ℤ) := by positivity
+      -- a uniform closeness bound, sharpened per case below
+      suffices hk : ∃ k : ℕ, |d| = (k : ℚ) / (10 : ℚ) ^ (p2 : ℤ)
+          ∧ |(|x2| - (k : ℚ) / (10 : ℚ) ^ (p2 : ℤ))| < 1 / 2 / (10 : ℚ) ^ (p2 : ℤ) by
+        obtain ⟨k, hk1, hk2⟩ := hk
+        have := fixed_digits_value x2 p2 k hk2
+        rw [← hn, ← hp2] at *
+        rw [this, ← hk1]
+      rcases lt_or_ge |x2| ((10 : ℚ) ^ e) with hlow | hge
+      · -- the float fell just below 10^e: d is exactly 10^e, one more decimal is printed
+        have hdeq : |d| = (10 : ℚ) ^ e := by
+          by_contra hne
+          have hgt : (10 : ℚ) ^ e < |d| := lt_of_le_of_ne hbr.1 (Ne.symm hne)
+          rw [hdm] at hgt
+          have hgap := grid_gap_above m (p : ℤ) e (by omega) hgt
+          rw [← hdm] at hgap
+          have hstep : (1 : ℚ) / (10 : ℚ) ^ (p : ℤ) = (10 : ℚ) ^ e * (10 : ℚ) ^ (1 - s) := by
+            rw [← pow10_add, one_div, ← zpow_neg]; congr 1; omega
+          have h1s : (10 : ℚ) ^ (-15 : ℤ) ≤ (10 : ℚ) ^ (1 - s) := pow10_mono (by omega)
+          have hepos := pow10_pos e
+          have hx : |d| - (2 : ℚ) ^ (-53 : ℤ) * |d| ≤ |x2| := by
+            have := (abs_le.mp (habs.trans hrel)).1; linarith
+          have hdge : (10 : ℚ) ^ e * (1 + (10 : ℚ) ^ (-15 : ℤ)) ≤ |d| := by
+            have := mul_le_mul_of_nonneg_left h1s hepos.le
+            rw [hstep] at hgap
+            linarith
+          have := stays_above ((10 : ℚ) ^ e) |d| |x2| hepos hdge hx
+          linarith
+        have hx : (10 : ℚ) ^ (e - 1) ≤ |x2| := by
+          have h1 := (abs_le.mp (habs.trans hrel)).1
+          have hpe1 : (10 : ℚ) ^ (e - 1) = (10 : ℚ) ^ e / 10 := by
+            rw [show e - 1 = e + (-1) by ring, pow10_add]; norm_num; ring
+          rw [hpe1]
+          apply near_ge_tenth _ _ (pow10_pos e)
+          rw [hdeq] at h1
+          linarith
+        have he2 : Int.log 10 |x2| = e - 1 := log_eq_of_bounds |x2| hx2pos (e - 1) hx (by simpa using hlow)
+        have hp2' : (p2 : ℤ) = (p : ℤ) + 1 := by
+          rw [← hp2, he2]; rw [Int.toNat_of_nonneg (by omega)]; omega
+        refine ⟨10 ^ s.toNat, ?_, ?_⟩
+        · rw [hdeq, hp2', eq_div_iff (pow10_pos _).ne', ← pow10_add]
+          push_cast
+          rw [← zpow_natCast, Int.toNat_of_nonneg (by omega)]
+          congr 1; omega
+        · have hk : ((10 ^ s.toNat : ℕ) : ℚ) / (10 : ℚ) ^ (p2 : ℤ) = |d| := by
+            rw [hdeq, hp2', div_eq_iff (pow10_pos _).ne', ← pow10_add]
+            push_cast
+            rw [← zpow_natCast, Int.toNat_of_nonneg (by omega)]
+            congr 1; omega
+          rw [hk]
+          have hc := close_of_rel d x2 s (e - s) hs15 (by rw [hdeq]; exact pow10_mono (by omega)) hrel
+          have : (1 : ℚ) / 2 / (10 : ℚ) ^ (p2 : ℤ) = 1 / 2 * (10 : ℚ) ^ (e - s) := by
+            rw [hp2', div_eq_mul_inv, ← zpow_neg]; congr 2; omega
+          rw [this]
+          have hq := pow10_pos (e - s)
+          linarith [habs.trans_lt hc]
+      · rcases lt_or_ge |x2| ((10 : ℚ) ^ (e + 1)) with hmid | hhigh
+        · -- the ordinary case: same precision
+          have he2 : Int.log 10 |x2| = e := log_eq_of_bounds |x2| hx2pos e hge hmid
+          have hp2' : p2 = p := by rw [← hp2, he2]
+          refine ⟨m.toNat, ?_, ?_⟩
+          · rw [hp2', hdm]
+            congr 1
+            have : ((m.toNat : ℕ) : ℤ) = m := Int.toNat_of_nonneg hm0
+            exact_mod_cast this.symm
+          · have hk : ((m.toNat : ℕ) : ℚ) / (10 : ℚ) ^ (p2 : ℤ) = |d| := by
+              rw [hp2', hdm]
+              congr 1
+              have : ((m.toNat : ℕ) : ℤ) = m := Int.toNat_of_nonneg hm0
+              exact_mod_cast this
+            rw [hk]
+            have hc := close_of_rel d x2 s (e + 1 - s) hs15 (by
+              calc |d| ≤ (10 : ℚ) ^ (e + 1) := hbr.2
+                _ = (10 : ℚ) ^ (s + (e + 1 - s)) := by congr 1; ring) hrel
+            have : (1 : ℚ) / 2 / (10 : ℚ) ^ (p2 : ℤ) = 1 / 2 * (10 : ℚ) ^ (e + 1 - s) := by
+              rw [hp2', div_eq_mul_inv, ← zpow_neg]; congr 2; omega
+            rw [this]
+            have hq := pow10_pos (e + 1 - s)
+            linarith [habs.trans_lt hc]
+        · -- carry: d is exactly 10^(e+1)
+          have hdeq : |d| = (10 : ℚ) ^ (e + 1) := by
+            by_contra hne
+            have hlt : |d| < (10 : ℚ) ^ (e + 1) := lt_of_le_of_ne hbr.2 hne
+            rw [hdm] at hlt
+            have hgap := grid_gap_below m (p : ℤ) (e + 1) (by omega) hlt
+            rw [← hdm] at hgap
+            have hstep : (1 : ℚ) / (10 : ℚ) ^ (p : ℤ) = (10 : ℚ) ^ (e + 1) * (10 : ℚ) ^ (-s) := by
+              rw [← pow10_add, one_div, ← zpow_neg]; congr 1; omega
+            have h1s : (10 : ℚ) ^ (-15 : ℤ) ≤ (10 : ℚ) ^ (-s) := pow10_neg_le_of_s s hs15
+            have hepos := pow10_pos (e + 1)
+            have hx : |x2| ≤ |d| + (2 : ℚ) ^ (-53 : ℤ) * |d| := by
+              have := (abs_le.mp (habs.trans hrel)).2; linarith
+            have hdle : |d| ≤ (10 : ℚ) ^ (e + 1) * (1 - (10 : ℚ) ^ (-15 : ℤ)) := by
+              have := mul_le_mul_of_nonneg_left h1s hepos.le
+              rw [hstep] at hgap
+              linarith
+            have := stays_below ((10 : ℚ) ^ (e + 1)) |d| |x2| hepos hdle hx
+            linarith
+          have hx : |x2| < (10 : ℚ) ^ (e + 2) := by
+            have h1 := (abs_le.mp (habs.trans hrel)).2
+            have hpe1 : (10 : ℚ) ^ (e + 2) = (10 : ℚ) ^ (e + 1) * 10 := by
+              rw [show e + 2 = (e + 1) + 1 by ring, pow10_add]; norm_num
+            rw [hpe1]
+            apply near_lt_ten _ _ (pow10_pos (e + 1))
+            rw [hdeq] at h1
+            linarith
+          have he2 : Int.log 10 |x2| = e + 1 :=
+            log_eq_of_bounds |x2| hx2pos (e + 1) hhigh (by rw [show e + 1 + 1 = e + 2 by ring]; exact hx)
+          have hp2' : (p2 : ℤ) = ((s - 1 - (e + 1)).toNat : ℤ) := by rw [← hp2, he2]
+          have hp2le : (p2 : ℤ) ≤ (p : ℤ) := by
+            rw [hp2', hpe]
+            by_cases hz : 0 ≤ s - 1 - (e + 1)
+            · rw [Int.toNat_of_nonneg hz]; omega
+            · rw [Int.toNat_eq_zero.mpr (by omega)]; simp; omega
+          have hnn : 0 ≤ e + 1 + (p2 : ℤ) := by
+            have : s - 1 - (e + 1) ≤ (p2 : ℤ) := by rw [hp2']; exact Int.self_le_toNat _
+            omega
+          refine ⟨10 ^ (e + 1 + (p2 : ℤ)).toNat, ?_, ?_⟩
+          · rw [hdeq, eq_div_iff (pow10_pos _).ne', ← pow10_add]
+            push_cast
+            rw [← zpow_natCast, Int.toNat_of_nonneg hnn]
+          · have hk : ((10 ^ (e + 1 + (p2 : ℤ)).toNat : ℕ) : ℚ) / (10 : ℚ) ^ (p2 : ℤ) = |d| := by
+              rw [hdeq, div_eq_iff (pow10_pos _).ne', ← pow10_add]
+              push_cast
+              rw [← zpow_natCast, Int.toNat_of_nonneg hnn]
+            rw [hk]
+            have hc := close_of_rel d x2 s (e + 1 - s) hs15 (by
+              rw [hdeq]; exact pow10_mono (by omega)) hrel
+            have hge2 : (10 : ℚ) ^ (e + 1 - s) ≤ 1 / (10 : ℚ) ^ (p2 : ℤ) := by
+              rw [one_div, ← zpow_neg]; exact pow10_mono (by omega)
+            have hq := pow10_pos (e + 1 - s)
+            have : (1 : ℚ) / 2 / (10 : ℚ) ^ (p2 : ℤ) = 1 / 2 * (1 / (10 : ℚ) ^ (p2 : ℤ)) := by ring
+            rw [this]
+            linarith [habs.trans_lt hc]
+
+end C16
+
+
+namespace C16
+open Format
+
+theorem two_zpow_pos (k : ℤ) : (0 : ℚ) < (2 : ℚ) ^ k := by positivity
+
+/-- the executable binary64 rounding of the model has relative error at most 2⁻⁵³ in the normal range -/
+theorem fl_rel (q x : ℚ) (hq : (2 : ℚ) ^ (-1022 : ℤ) ≤ |q|) (h : Format.fl q = some x) :
+    |x - q| ≤ (2 : ℚ) ^ (-53 : ℤ) * |q| := by
+  have hq0 : q ≠ 0 := by
+    intro h0; rw [h0, abs_zero] at hq
+    exact absurd hq (not_le.mpr (two_zpow_pos _))
+  have hqpos : 0 < |q| := abs_pos.mpr hq0
+  unfold Format.fl at h
+  simp only [hq0, if_false] at h
+  have hlog : (-1022 : ℤ) ≤ Int.log 2 |q| :=
+    (Int.zpow_le_iff_le_log (by norm_num) hqpos).mp (by exact_mod_cast hq)
+  rw [max_eq_left hlog] at h
+  set e2 := Int.log 2 |q| with he2
+  set ulp : ℚ := (2 : ℚ) ^ (e2 - 52) with hulp
+  have hulp0 : 0 < ulp := two_zpow_pos _
+  split_ifs at h
+  injection h with h
+  subst h
+  have herr := rheInt_error (q / ulp)
+  have : (rheInt (q / ulp) : ℚ) * ulp - q = ((rheInt (q / ulp) : ℚ) - q / ulp) * ulp := by
+    field_simp
+  rw [this, abs_mul, abs_of_pos hulp0]
+  have hle : (2 : ℚ) ^ e2 ≤ |q| := by
+    have := Int.zpow_log_le_self (b := 2) (by norm_num) hqpos
+    exact_mod_cast this
+  calc |(rheInt (q / ulp) : ℚ) - q / ulp| * ulp ≤ 1 / 2 * ulp := mul_le_mul_of_nonneg_right herr hulp0.le
+    _ = (2 : ℚ) ^ (-53 : ℤ) * (2 : ℚ) ^ e2 := by
+        rw [hulp, show e2 - 52 = e2 + (-52) by ring, zpow_add₀ (by norm_num : (2 : ℚ) ≠ 0)]
+        norm_num; ring
+    _ ≤ (2 : ℚ) ^ (-53 : ℤ) * |q| := mul_le_mul_of_nonneg_left hle (two_zpow_pos _).le
+
+/-- … and returns integers below 2⁵³ in magnitude unchanged -/
+theorem fl_int (n : ℤ) (x : ℚ) (hn : |(n : ℚ)| < (2 : ℚ) ^ (53 : ℕ)) (h : Format.fl (n : ℚ) = some x) : x = (n : ℚ) := by
+  by_cases hn0 : n = 0
+  · subst hn0; simp [Format.fl] at h; exact h.symm
+  have hq0 : (n : ℚ) ≠ 0 := by exact_mod_cast hn0
+  have hqpos : 0 < |(n : ℚ)| := abs_pos.mpr hq0
+  unfold Format.fl at h
+  simp only [hq0, if_false] at h
+  have h1 : (1 : ℚ) ≤ |(n : ℚ)| := by
+    have : (1 : ℤ) ≤ |n| := Int.one_le_abs hn0
+    exact_mod_cast this
+  have hlog0 : (0 : ℤ) ≤ Int.log 2 |(n : ℚ)| :=
+    (Int.zpow_le_iff_le_log (by norm_num) hqpos).mp (by simpa using h1)
+  have hlog53 : Int.log 2 |(n : ℚ)| < 53 :=
+    (Int.lt_zpow_iff_log_lt (by norm_num) hqpos).mp (by exact_mod_cast hn)
+  rw [max_eq_left (by omega)] at h
+  set e2 := Int.log 2 |(n : ℚ)| with he2
+  -- n / ulp = n * 2^(52 - e2) is an integer
+  have hk : 0 ≤ 52 - e2 := by omega
+  have hdiv : (n : ℚ) / (2 : ℚ) ^ (e2 - 52) = ((n * 2 ^ (52 - e2).toNat : ℤ) : ℚ) := by
+    rw [div_eq_iff (two_zpow_pos _).ne']
+    push_cast
+    rw [← zpow_natCast, Int.toNat_of_nonneg hk, mul_assoc, ← zpow_add₀ (by norm_num : (2 : ℚ) ≠ 0)]
+    simp
+  rw [hdiv, rheInt_int] at h
+  split_ifs at h
+  injection h with h
+  rw [← h]
+  push_cast
+  rw [← zpow_natCast, Int.toNat_of_nonneg hk, mul_assoc, ← zpow_add₀ (by norm_num : (2 : ℚ) ≠ 0)]
+  simp
+
+end C16
+
+
+namespace C16
+open Format
+
+/-- the model's executable float library (exact `floor(log10 ·)`, round-to-nearest-even written in Lean) meets `FlLaw` -/
+theorem exactLib_flLaw : FlLaw exactLib.fl := ⟨fl_rel, fl_int⟩
+
+/-- **C16, fixed-point branch, for the float library the model is run with**: for `1 ≤ s ≤ 15` and
+`1e-300 ≤ |v| < 1e15` the printed digits denote `round_half_even(v, p)`, which is `v` to `s` significant digits. -/
+theorem fixed_value_exactLib (v : ℚ) (hv : v ≠ 0) (hvlo : (10 : ℚ) ^ (-300 : ℤ) ≤ |v|) (hv15 : |v| < (10 : ℚ) ^ (15 : ℤ))
+    (s : ℤ) (hs1 : 1 ≤ s) (hs15 : s ≤ 15) (n p2 : ℕ) (h : fixedDigits exactLib v s = .ok (n, p2)) :
+    abs ((n : ℚ) / (10 : ℚ) ^ (p2 : ℤ) - abs v) ≤ 1 / 2 * (10 : ℚ) ^ (1 - s) * abs v := by
+  rw [fixed_value_float exactLib (fun _ => rfl) exactLib_flLaw v hv hvlo hv15 s hs1 hs15 n p2 h, rhe_abs]
+  have := fixed_sig_error |v| (abs_ne_zero.mpr hv) s
+  rwa [abs_abs] at this
+
+end C16
